@@ -134,12 +134,14 @@ pub fn contiguous_ascii<const H: usize, const N: usize, const P: usize>(k: Kind,
                 i += 1;
             }
             check!(contiguous && spec::valid_witness(&nh, &needle, w), "C02 contiguous kinds report contiguous, valid indices");
+            // (a failed check cuts the path under Kani: the one-character clause of C04 comes before the
+            // occurrence check it would otherwise hide behind)
+            if k == Kind::Fuzzy1 {
+                check!(score as u32 == 16 + 2 * bonus[ws], "C04 one-character needle: the best-placed occurrence wins");
+            }
             check!(w[0] as usize == ws, "C05 the reported occurrence is the leftmost one whose first character earns the highest bonus / is anchored as the kind requires");
             if contiguous && (w[0] as usize) + N <= H {
                 check!(score as u32 == spec::score_of(&bonus, w, N), "C03 score equals the fzf scheme evaluated on the reported alignment (contiguous kinds)");
-            }
-            if k == Kind::Fuzzy1 {
-                check!(score as u32 == 16 + 2 * bonus[ws], "C04 one-character needle: the best-placed occurrence wins");
             }
         }
         cover!(ws > 0, "match not at position 0");
@@ -147,6 +149,13 @@ pub fn contiguous_ascii<const H: usize, const N: usize, const P: usize>(k: Kind,
     }
     cover!(r.is_none(), "no match");
     let r2 = call(&mut m, k, Utf32Str::Ascii(&hay), Utf32Str::Ascii(&needle), None);
+    check!(r2.is_some() == want.is_some(), "C05 contiguous matching decides the documented relation (score-only variant)");
+    if k == Kind::Fuzzy1 {
+        if let (Some(score), Some(ws)) = (r2, want) {
+            check!(score as u32 == 16 + 2 * bonus[ws], "C04 one-character needle: the best-placed occurrence wins (score-only variant)");
+        }
+    }
+    // (a failed check cuts the path under Kani: the property-specific checks come first)
     check!(r2 == r, "C03 score-only and indices variants return the same value (contiguous kinds)");
     std::mem::forget(m);
 }
